@@ -7,7 +7,7 @@ sys.path.insert(0, os.path.dirname(os.path.abspath(__file__)))
 from seedmeta_notes import STRENGTHENED  # noqa
 
 
-def parse(files):
+def parse(files, keep_first=False):
     logs = "".join(open(f).read() for f in files if os.path.exists(f))
     res = {}
     for b in re.split(r"^== ", logs, flags=re.M)[1:]:
@@ -27,13 +27,15 @@ def parse(files):
                     break
                 claims.append("%s @ %s" % (mm.group(1), mm.group(2)))
             rc = re.search(r"-> exit (\d+)", m.group(3))
+            if keep_first and m.group(1) in d["checks"]:
+                continue
             d["checks"][m.group(1)] = {"violations": int(m.group(2)), "exit": int(rc.group(1)) if rc else None, "summary": m.group(3).strip()[:260], "sample_claims": claims}
     return res
 
 
 a = sys.argv[1:]
 i, j = a.index("--first"), a.index("--final")
-first, final = parse(a[i + 1 : j]), parse(a[j + 1 :])
+first, final = parse(a[i + 1 : j], keep_first=True), parse(a[j + 1 :])
 rows = []
 for name in sorted(set(first) | set(final)):
     dirp = os.path.join("/verif/seeded", name)
